@@ -177,6 +177,20 @@ Proof.
   exact (run_fifo k n _ (fun q => q) (fun q => length q <= n) _ (cl_sim k n enq_first Hn) (fun q H => H) is [] (Nat.le_0_l n) eq_refl Hl Hr).
 Qed.
 
+(* ------------------------------------------------------------------ read-only views: peek / data output while ready *)
+Theorem C17_spec_head_is_delivered {M} k n (q : list M) o : f_deq_fire (snd (fifo_step k n q o)) = true ->
+  f_msg (snd (fifo_step k n q o)) = fifo_head q o (snd (fifo_step k n q o)).
+Proof. exact (fifo_head_delivered k n q o). Qed.
+Theorem C17_spec_head_is_oldest {M} k n (a : M) q o : fifo_head (a :: q) o (snd (fifo_step k n (a :: q) o)) = Some a.
+Proof. exact (fifo_head_oldest k n a q o). Qed.
+Theorem C17_cl_peek {M} (q : list M) : cl_peek q = snd (cl_deq q) /\ cl_peek_rdy q = cl_deq_rdy q.
+Proof. exact (cl_peek_is_deq q). Qed.
+Theorem C17_cl_peek_then_deq {M} k n enq_first (q : list M) o : 0 < n -> length q <= n ->
+  f_deq_fire (snd (cl_step k n enq_first q o)) = true ->
+  (k = Pipe -> enq_first = false) -> (k = Bypass -> enq_first = true) ->
+  f_msg (snd (cl_step k n enq_first q o)) = cl_peek (cl_at_consumer enq_first q o (snd (cl_step k n enq_first q o))).
+Proof. exact (cl_peek_then_deq k n enq_first q o). Qed.
+
 (* ------------------------------------------------------------------ chains through the interface adapters: certified stream acceptor *)
 (* what the harness evaluates on the observed end-to-end streams (stream_first_bad = None) implies, for a reset-free
    history that starts and ends with nothing outstanding: delivered = accepted, as lists *)
@@ -217,3 +231,4 @@ Print Assumptions C17_e1_fifo. Print Assumptions C17_s1_fifo. Print Assumptions 
 Print Assumptions C17_vq_fifo. Print Assumptions C17_cl_fifo.
 Print Assumptions C17_nonvacuous_pipe3. Print Assumptions C17_nonvacuous_bypass1.
 Print Assumptions C17_stream_acceptor. Print Assumptions C17_stream_acceptor_prefix.
+Print Assumptions C17_spec_head_is_delivered. Print Assumptions C17_spec_head_is_oldest. Print Assumptions C17_cl_peek. Print Assumptions C17_cl_peek_then_deq.
